@@ -22,8 +22,8 @@ ASSUMPTIONS = [
     "timed geometric kernel: power^(|dt|/delta) with delta = the fitted public delta_mean_ (taken as given)",
 ]
 MIN_NONTRIVIAL = {"quick": 300, "thorough": 3000}
-REQUIRED = {"quick": {"matrices_compared": 2500, "cells_compared": 100000, "jit_matrices": 150, "timed_shift_checks": 30, "transpose_checks": 30},
-            "thorough": {"matrices_compared": 9000, "cells_compared": 200000, "jit_matrices": 1500, "timed_shift_checks": 300, "transpose_checks": 300}}
+REQUIRED = {"quick": {"matrices_compared": 2500, "cells_compared": 100000, "jit_matrices": 150, "timed_shift_checks": 30, "transpose_checks": 30, "boundary_checks": 30},
+            "thorough": {"matrices_compared": 9000, "cells_compared": 200000, "jit_matrices": 1500, "timed_shift_checks": 300, "transpose_checks": 300, "boundary_checks": 300}}
 
 
 def plan(tier, seed):
@@ -133,6 +133,24 @@ def check_case(ctx, c):
                     viol("before-is-not-transpose-of-after", "with fixed radii and no normalisation the 'before' block is not the transpose of the 'after' block")
             except ValueError:
                 pass
+    # ---- relational: windows never cross a sequence boundary.  Two documents joined by a run of an excluded,
+    #      nullified separator longer than every radius must give the matrix of the two separate documents.
+    if r and c["est"] == "token" and len(c["docs"]) >= 2 and ctx.rng("sb", sg).random() < 0.4 and all(w == "fixed" for w in c["wfuncs"]) and not c["prune"]:
+        sep = "__sep__"
+        k = max(c["radii"]) + 1
+        joined = []
+        for d in c["docs"]:
+            joined += list(d) + [sep] * k
+        base = dict(c, mask="[M]", nullify=True, prune={"excluded_tokens": {sep}})
+        try:
+            Ms = coh.build(base, V).fit_transform([list(d) for d in c["docs"]]).toarray()
+            Mj = coh.build(base, V).fit_transform([joined]).toarray()
+            ctx.count("boundary_checks")
+            if Ms.shape != Mj.shape or not np.allclose(Ms, Mj, rtol=1e-5, atol=1e-7):
+                viol("window-crosses-sequence-boundary", "documents joined by %d nullified separators give a different matrix than the separate documents" % k,
+                     {"max_diff": float(np.max(np.abs(Ms - Mj))) if Ms.shape == Mj.shape else None})
+        except ValueError:
+            pass
     # ---- relational: timestamp shift invariance
     if r and c["est"] == "timed":
         shift = ctx.rng("sh", sg).choice([1024.0, 1e6, 2.0**24 + 1, 1.7e9, 1e12])
